@@ -137,6 +137,7 @@ def run_history(chk, da, rng, hid):
     _materialize._LOWER_CACHE.clear()
     chk.case(("history", hid, repr([(a, i, sorted(c.items(), key=str)) for a, i, c in steps])), nontrivial=len(ok_members) > 1,
              sample={"members": [progs.show(p) for p, _ in members], "steps": [(a, i, c) for a, i, c in steps]} if hid < 3 else None)
+    poisoned = set()
     for sidx, (action, i, cfg) in enumerate(steps):
         if i not in ok_members:
             continue
@@ -171,7 +172,10 @@ def run_history(chk, da, rng, hid):
                            "config": cfg, **progs.describe(p, sources), "members_repr": [repr(q) for q, _ in members],
                            "all_sources": {k: {"shape": list(a.shape), "chunks": c, "data": a.tolist() if a.size <= 600 else None} for k, (a, c) in enumerate(sources)}},
                           signature={"class": "value", "config_keys": sorted(cfg), "flat_nd_arg_tie": flat_nd_arg_tie(p, sources),
-                                     "stale_cached_chunks": stale_cached_chunks(live[i].expr, cfg)})
+                                     # the caches poisoned by an earlier F5b step of this history keep serving the wrong form
+                                     "stale_cached_chunks": bool(stale_cached_chunks(live[i].expr, cfg) or i in poisoned)})
+            if stale_cached_chunks(live[i].expr, cfg):
+                poisoned.add(i)
     _materialize._LOWER_CACHE.clear()
 
 
